@@ -218,7 +218,13 @@ impl World {
 
     /// One scheduler pass (panics are caught and reported).
     pub fn pass(&mut self) -> PassResult {
+        // Multi-worker engines run real threads: script their claim order (hook H1, fixed round-robin
+        // tape) so that which worker meets a poisonous unit first never depends on the OS scheduler.
+        if self.spec.workers > 1 {
+            warp_core::verif::install_claim_controller(Some(warp_core::verif::ClaimController::new(vec![0, 1, 2, 3])));
+        }
         let r = std::panic::catch_unwind(std::panic::AssertUnwindSafe(|| SchedulerCoordinator::super_tick(&mut self.runtime, &mut self.provenance, &mut self.engine)));
+        warp_core::verif::install_claim_controller(None);
         self.passes += 1;
         match r {
             Ok(Ok(records)) => {
